@@ -10,6 +10,8 @@ ASSUME PrintT(<<"CHECKED", Len(Cls)>>)
 ASSUME PrintT(<<"BADCLASS", { Cls[i].id : i \in { j \in 1..Len(Cls) : Code(Classify(Cls[j].leap, Cls[j].refPos)) # Cls[j].got } }>>)
 \* published status after the report, from each prior FSM state: equals the class once a measurement exists
 ASSUME PrintT(<<"BADPUB", { Cls[i].id : i \in { j \in 1..Len(Cls) : \E k \in 1..Len(Cls[j].pub) : Cls[j].pub[k] # Code(Classify(Cls[j].leap, Cls[j].refPos)) } }>>)
+\* C09 through the classifier: from a fresh updater, a report that is not Synchronized-class publishes Unknown (pub0 = 9: not run)
+ASSUME PrintT(<<"BADPUB0", { Cls[i].id : i \in { j \in 1..Len(Cls) : Cls[j].pub0 # 9 /\ Cls[j].pub0 # (IF Classify(Cls[j].leap, Cls[j].refPos) = "S" THEN 1 ELSE 0) } }>>)
 VARIABLE x
 Init == x = 0
 Next == UNCHANGED x
